@@ -148,3 +148,43 @@ func vCatchExit(f func()) (int, bool) { f(); return 0, false }
 // vPermuteMaps: natively Go randomises map iteration itself; the replay
 // driver repeats the harness (VERIF_REPEAT) to meet the failing order.
 func vPermuteMaps(on bool) {}
+
+// vStubTimeFormat: natively the real formatter runs.
+func vStubTimeFormat(on bool) {}
+
+// ---- recording sink files ----
+
+var vFiles = map[int]*os.File{}
+
+func vFile(id int) *os.File {
+	f, err := os.CreateTemp("", "vfile")
+	if err != nil {
+		panic(err)
+	}
+	os.Remove(f.Name()) // unlinked: disappears with the process
+	vFiles[id] = f
+	return f
+}
+
+func vFileData(id int) string {
+	f := vFiles[id]
+	if f == nil {
+		return ""
+	}
+	st, _ := f.Stat()
+	b := make([]byte, st.Size())
+	f.ReadAt(b, 0)
+	return string(b)
+}
+
+// vFileWrites natively counts records by their final newline (one Write per
+// record is C02's subject).
+func vFileWrites(id int) int {
+	n := 0
+	for _, c := range vFileData(id) {
+		if c == '\n' {
+			n++
+		}
+	}
+	return n
+}
